@@ -129,6 +129,7 @@ def Doc.empty (d : Doc) : Bool := d.id = []
 def Doc.valid (d : Doc) : Bool :=
   if d.empty then true else
   if !validateDID d.id || d.vms.isEmpty || d.auths.isEmpty then false else
+  if (match d.controller with | some c => c.isEmpty | none => false) then false else   -- F32: a list that is present names somebody
   if (match d.controller with | some c => !emptyDIDs c && !validateDIDs c | none => false) then false else
   if (match d.contexts with | some c => !validateContexts c | none => false) then false else
   d.vms.all (·.valid d.id) &&
